@@ -217,7 +217,7 @@ def gen_label_text(rng):
     for _ in range(rng.choice([1, 2, 3, 5, 8])):
         labs.append(lab)
         items.append("#%d=%s" % (lab, rng.choice(["a", "(b)", "\"s\"", "#(1 2)", "(x . y)"])))
-        lab += rng.choice([1, 1, 2, 8, 15, 16, 16, 17])
+        lab += rng.choice([1, 1, 2, 8, 15, 16, 16, 17, 24, 31, 32, 33])
     for _ in range(rng.choice([1, 2, 4])):
         ref = rng.choice(labs + [labs[-1] + 1, labs[-1] + 17, 22, 23, 24, 46, 47, 48, 95, 96, 500, 100000, 4294967295, 4294967296 + labs[0], 10 ** 20])
         items.insert(rng.randrange(len(items) + 1), "#%d#" % ref)
